@@ -234,8 +234,20 @@ func (e *compatibilityEngine) getLookbackDelta(opts *promql.QueryOpts) time.Dura
 // hands the point slices of a result back to a pool when the query is closed
 // and reuses them for later queries; results of this engine stay valid after
 // Close, so the caller is given its own copy of the points.
+//
+// As for natively evaluated queries, Cancel and Close may be called from other
+// goroutines than Exec and both abort a running Exec. The Prometheus query
+// itself allows neither: its Cancel reads what Exec writes, and its Close
+// recycles the result Exec may still be building.
 type fallbackQuery struct {
 	promql.Query
+
+	mu        sync.Mutex
+	cancel    context.CancelFunc
+	cancelled bool
+	running   bool
+	closeReq  bool
+	closed    bool
 }
 
 func newFallbackQuery(q promql.Query, err error) (promql.Query, error) {
@@ -246,6 +258,17 @@ func newFallbackQuery(q promql.Query, err error) (promql.Query, error) {
 }
 
 func (q *fallbackQuery) Exec(ctx context.Context) *promql.Result {
+	ctx, cancel := context.WithCancel(ctx)
+	defer cancel()
+	q.mu.Lock()
+	q.cancel = cancel
+	q.running = true
+	if q.cancelled {
+		// Cancel or Close overtook the start of Exec.
+		cancel()
+	}
+	q.mu.Unlock()
+
 	res := q.Query.Exec(ctx)
 	if matrix, ok := res.Value.(promql.Matrix); ok {
 		owned := make(promql.Matrix, len(matrix))
@@ -254,7 +277,45 @@ func (q *fallbackQuery) Exec(ctx context.Context) *promql.Result {
 		}
 		res.Value = owned
 	}
+
+	q.mu.Lock()
+	q.running = false
+	q.cancel = nil
+	closeNow := q.closeReq && !q.closed
+	if closeNow {
+		q.closed = true
+	}
+	q.mu.Unlock()
+	if closeNow {
+		q.Query.Close()
+	}
 	return res
+}
+
+func (q *fallbackQuery) Cancel() {
+	q.mu.Lock()
+	cancel := q.cancel
+	q.cancel = nil
+	q.cancelled = true
+	q.mu.Unlock()
+	if cancel != nil {
+		cancel()
+	}
+}
+
+// Close aborts a running Exec and releases the resources of the query, once,
+// and not before Exec has returned.
+func (q *fallbackQuery) Close() {
+	q.Cancel()
+	q.mu.Lock()
+	if q.running || q.closed {
+		q.closeReq = true
+		q.mu.Unlock()
+		return
+	}
+	q.closed = true
+	q.mu.Unlock()
+	q.Query.Close()
 }
 
 type Query struct {
